@@ -1357,8 +1357,7 @@ class Chemical:
         if not Tmin: Tmin = Psat.Tmin + 1.
         if not Tmax: Tmax = Psat.Tmax - 1.
         if Tb:
-            if P == 101325: return Tb
-            else: Tguess = Tb
+            Tguess = Tb
         elif not Tguess:
             Tguess = (Tmin + Tmax)/2.0
         y0 = Psat(Tmin) - P
